@@ -173,3 +173,120 @@ async fn cancel_release() {
     let w = tokio::time::timeout(Duration::from_millis(200), &mut waiter).await;
     assert!(w.is_ok(), "pure waiter still pending after the attempt it waits on failed");
 }
+
+/// checkout.covered [C04] (F4): between checkout() and its first poll the only HTTP/2 handle is absent
+/// from the pool, so a second HTTP/2 request issued in between dials a new connection
+#[tokio::test]
+async fn checkout_covered() {
+    let pool = Pool::new(cfg(5));
+    let key = example_key();
+    let c1 = pool.checkout(key.clone(), true,
+        MockTransport::reusable().connector("mock://address".into_request_parts(), HttpProtocol::Http2)).await.unwrap();
+    let id1 = c1.id();
+    drop(c1);
+    let a = pool.checkout(key.clone(), true,
+        MockTransport::reusable().connector("mock://address".into_request_parts(), HttpProtocol::Http2));
+    let b = pool.checkout(key.clone(), true,
+        MockTransport::reusable().connector("mock://address".into_request_parts(), HttpProtocol::Http2)).await.unwrap();
+    let a = a.await.unwrap();
+    assert_eq!(a.id(), id1);
+    assert_eq!(b.id(), id1, "second HTTP/2 request was served on a freshly dialed connection although an HTTP/2 connection existed");
+}
+
+/// checkout.dial_only / checkout.reuse [C04]: an idle open connection is reused, no dial
+#[tokio::test]
+async fn checkout_reuses_idle() {
+    let pool = Pool::new(cfg(5));
+    let key = example_key();
+    let c1 = pool.checkout(key.clone(), false,
+        MockTransport::single().connector("mock://address".into_request_parts(), HttpProtocol::Http1)).await.unwrap();
+    let id1 = c1.id();
+    drop(c1);
+    tokio::task::yield_now().await; // WhenReady hands the connection back
+    tokio::task::yield_now().await;
+    let c2 = pool.checkout(key.clone(), false,
+        MockTransport::single().connector("mock://address".into_request_parts(), HttpProtocol::Http1)).await.unwrap();
+    assert_eq!(c2.id(), id1, "an idle open connection for the origin was not reused");
+}
+
+/// checkout.wait / checkout.dial_marks [C04]: while an HTTP/2 attempt is in flight a second request waits
+#[tokio::test]
+async fn checkout_waits_for_inflight() {
+    let pool = Pool::new(cfg(5));
+    let key = example_key();
+    let (tx, rx) = tokio::sync::oneshot::channel::<MockStream>();
+    let mut dialer = Box::pin(pool.checkout(key.clone(), true,
+        MockTransport::channel(rx).connector("mock://address".into_request_parts(), HttpProtocol::Http2)));
+    assert!(futures_util::poll!(&mut dialer).is_pending());
+    let mut second = Box::pin(pool.checkout(key.clone(), true,
+        MockTransport::reusable().connector("mock://address".into_request_parts(), HttpProtocol::Http2)));
+    assert!(futures_util::poll!(&mut second).is_pending(), "second HTTP/2 request did not wait for the in-flight attempt");
+    tx.send(MockStream::reusable()).ok();
+    let first = dialer.await.unwrap();
+    let second = second.await.unwrap();
+    assert_eq!(first.id(), second.id(), "second HTTP/2 request dialed its own connection");
+}
+
+/// wrdrop.open [C05]: a connection that is closed when its WhenReady task ends is not put back
+#[tokio::test]
+async fn whenready_drop_open() {
+    let pool: TPool = Pool::new(cfg(5));
+    let t = pool.keys.lock().insert(example_key());
+    let c = TestConn::h1();
+    c.open.store(false, std::sync::atomic::Ordering::SeqCst);
+    drop(WhenReady { connection: Some(c), token: t, pool: pool.as_ref() });
+    assert!(pool.inner.lock().idle.get(&t).map(|l| l.len()).unwrap_or(0) == 0, "closed connection returned to the pool");
+    let c = TestConn::h1();
+    drop(WhenReady { connection: Some(c), token: Token::zero(), pool: pool.as_ref() });
+    assert!(pool.inner.lock().idle.get(&Token::zero()).map(|l| l.len()).unwrap_or(0) == 0, "connection filed under the zero token");
+}
+
+/// wr.ready_only / pdrop.excl [C02]: an exclusive connection goes back only after it reported ready
+#[tokio::test]
+async fn exclusive_returns_after_ready() {
+    let pool: TPool = Pool::new(cfg(5));
+    let t = pool.keys.lock().insert(example_key());
+    let c = TestConn::h1();
+    let ready = c.ready.clone();
+    ready.store(false, std::sync::atomic::Ordering::SeqCst);
+    let id = c.id();
+    drop(Pooled { connection: Some(c), token: t, pool: pool.as_ref() });
+    for _ in 0..5 { tokio::task::yield_now().await; }
+    assert!(pool.inner.lock().idle.get(&t).map(|l| l.len()).unwrap_or(0) == 0,
+        "exclusive connection handed back before it reported ready (previous exchange not finished)");
+    let _ = id;
+}
+
+/// idle.pop.open / pop.open [C05]: closed idle connections are discarded, not handed out
+#[tokio::test]
+async fn pop_skips_closed() {
+    let pool: TPool = Pool::new(cfg(5));
+    let t = pool.keys.lock().insert(example_key());
+    let open = TestConn::h1();
+    let open_id = open.id();
+    let closed = TestConn::h1();
+    closed.open.store(false, std::sync::atomic::Ordering::SeqCst);
+    pool.inner.lock().push(t, open, pool.as_ref());
+    pool.inner.lock().push(t, closed, pool.as_ref());
+    let got = pool.inner.lock().pop(t);
+    assert_eq!(got.map(|c| c.id()), Some(open_id), "pop handed out a closed connection or missed the open one");
+}
+
+/// idle.pop.fresh [C05]: an entry older than the idle timeout is not handed out
+#[tokio::test]
+async fn pop_skips_expired() {
+    let mut pool_cfg = cfg(5);
+    pool_cfg.idle_timeout = Some(Duration::from_millis(30));
+    let pool: TPool = Pool::new(pool_cfg);
+    let t = pool.keys.lock().insert(example_key());
+    pool.inner.lock().push(t, TestConn::h1(), pool.as_ref());
+    std::thread::sleep(Duration::from_millis(80));
+    assert!(pool.inner.lock().pop(t).is_none(), "pop handed out a connection idle for longer than the timeout");
+    // zero timeout = no expiry
+    let mut pool_cfg = cfg(5);
+    pool_cfg.idle_timeout = Some(Duration::ZERO);
+    let pool: TPool = Pool::new(pool_cfg);
+    let t = pool.keys.lock().insert(example_key());
+    pool.inner.lock().push(t, TestConn::h1(), pool.as_ref());
+    assert!(pool.inner.lock().pop(t).is_some(), "zero idle timeout treated as 'expire everything'");
+}
